@@ -100,24 +100,20 @@ Print Assumptions C12_writer_writes.
 (* (10) typep, class-of and method applicability use one list, and it is the specification's: in an
    invariant state, for an instance whose class object is the registered one, class-of shows P, typep m is
    membership in P, and a call of ANY generic (accessor generics included) finds the methods of exactly the
-   classes of P that have one, most specific first, cache or no cache. *)
+   classes of P that have one, most specific first, cache or no cache.  (Since repo_fixes/C12-3 a class can lose
+   readiness while it has instances: it inherits a class that was redefined with a superclass not defined yet.
+   Then P = [] and typep / dispatch see the hierarchy hier_of [] = (t), until the missing class is defined.) *)
 Theorem C12_typep_classof_dispatch_agree : forall w i, Inv w -> CacheInv w -> current w i = true ->
   exists n P,
     (forall f l, lin (table w) f n = Some l -> P = n :: l ++ [SO; TT]) /\
     ((forall f, lin (table w) f n = None) -> P = []) /\
     snd (step w (OClassOf i) [] []) = ONames P /\
-    (forall m, snd (step w (OTypep i m) [] []) = OB (memb m P)) /\
-    (forall k, snd (call_gf w k i) = match applicable (get_gf w k) P with [] => None | l => Some l end).
+    (forall m, snd (step w (OTypep i m) [] []) = OB (memb m (hier_of P))) /\
+    (forall k, snd (call_gf w k i) = match applicable (get_gf w k) (hier_of P) with [] => None | l => Some l end).
 Proof. exact typep_classof_dispatch_agree. Qed.
 Print Assumptions C12_typep_classof_dispatch_agree.
 
 (* (11) outside the guard the faithful model violates S: the known findings *)
-Theorem C12_redefinition_forward_reference_refuted :
-  guard_ops w0 w_fwd_prefix = true /\ guard_ops w0 w_fwd = false /\
-  prec_of (run w0 w_fwd) 0 = [0; 3; SO; TT] /\
-  prec_of (run w0 w_fwd) 1 = [1; 0; SO; TT] /\ spec_prec (run w0 w_fwd) 1 = [1; 0; 3; SO; TT].
-Proof. exact redefinition_forward_reference_refuted. Qed.
-Print Assumptions C12_redefinition_forward_reference_refuted.
 Theorem C12_dispatch_cache_stale_refuted :
   guard_ops w0 w_cache_prefix = true /\ guard_ops w0 w_cache = false /\
   prec_of (run w0 w_cache) 1 = [1; 3; SO; TT] /\ spec_prec (run w0 w_cache) 1 = [1; 3; SO; TT] /\
@@ -155,6 +151,27 @@ Theorem C12_original_classchanged_order_refuted :
   prec_of (class_changed pre 0 [2; 1]) 2 = [2; 1; 0; 3; SO; TT].
 Proof. exact original_classchanged_order_refuted. Qed.
 Print Assumptions C12_original_classchanged_order_refuted.
+
+(* (11b) repaired (repo_fixes/C12-3): a redefinition whose new superclass is not defined yet.  a, b under a, an
+   instance of b, a redefined under the undefined z, then z defined: the whole history is inside the guard; in
+   between a and b are not ready (no precedence list, make-instance refuses, the old instance of b is a t only),
+   afterwards b has (b a z standard-object t) and the old instance of b is a z.  The second theorem keeps the
+   record of the unchanged code (the failed re-merge left b ready with the old list and an empty inherit list). *)
+Theorem C12_redefinition_forward_reference_example :
+  guard_ops w0 w_fwd = true /\
+  prec_of (run w0 w_fwd_mid) 0 = [] /\ prec_of (run w0 w_fwd_mid) 1 = [] /\ spec_prec (run w0 w_fwd_mid) 1 = [] /\
+  snd (step (run w0 w_fwd_mid) (OTypep 0 1) [] []) = OB false /\ snd (step (run w0 w_fwd_mid) (OMake 1 []) [] []) = OErr /\
+  prec_of (run w0 w_fwd) 0 = [0; 3; SO; TT] /\
+  prec_of (run w0 w_fwd) 1 = [1; 0; 3; SO; TT] /\ spec_prec (run w0 w_fwd) 1 = [1; 0; 3; SO; TT] /\
+  snd (step (run w0 w_fwd) (OTypep 0 3) [] []) = OB true.
+Proof. exact redefinition_forward_reference_example. Qed.
+Print Assumptions C12_redefinition_forward_reference_example.
+Theorem C12_original_redefinition_forward_reference_refuted :
+  let pre := defclass_pre (run w0 w_fwd_prefix) 0 [3] [] [2; 1] in
+  prec_of (merge_orig pre 1) 1 = [1; 0; SO; TT] /\ readyb (merge_orig pre 1) 1 = true /\ inherits (merge_orig pre 1) 1 0 = false /\
+  spec_prec pre 1 = [] /\ prec_of (class_changed pre 0 [1]) 1 = [].
+Proof. exact original_redefinition_forward_reference_refuted. Qed.
+Print Assumptions C12_original_redefinition_forward_reference_refuted.
 
 (* (12) the hypotheses are satisfiable: a guarded history with forward references, a diamond, shadowed
    slots, initforms at two levels, a nil initform, a redefinition below which a class inherits, accessors and
